@@ -220,11 +220,15 @@ def find_word_in_line(line: str, word: str) -> Range:
         start and end positions (indices) of the word if not found it returns
         -1, len(word) -1
     """
+    # Fortran names are case insensitive. Only the candidate words are lowered, not
+    # the line: lowering can change the length of a line (e.g. U+0130) and with it
+    # every column that follows
+    word_lower = word.lower()
     i = next(
         (
             poss_name.start()
             for poss_name in FRegex.WORD.finditer(line)
-            if poss_name.group() == word
+            if poss_name.group().lower() == word_lower
         ),
         -1,
     )
